@@ -129,6 +129,16 @@ def _tokens(stmts, which, out_notes):
             continue
         if isinstance(st, ast.Expr) and isinstance(st.value, ast.Call):
             fn = ast.unparse(st.value.func)
+            c_ = st.value
+            if isinstance(c_.func, ast.Attribute) and c_.func.attr == "update" and len(c_.args) == 1 and \
+                    isinstance(c_.args[0], ast.Call) and ast.unparse(c_.args[0].func) in ("{}.fromkeys",
+                                                                                         "dict.fromkeys") and \
+                    len(c_.args[0].args) == 2 and ast.unparse(c_.args[0].args[0]) == ast.unparse(c_.func.value) and \
+                    isinstance(c_.args[0].args[1], ast.Constant) and _self_field(c_.func.value) is not None:
+                # d.update({}.fromkeys(d, <constant>)): every entry is reset, as reset(d, <constant>) does
+                if which == "partial_fit":
+                    toks.append(("KILL-IN-PARTIAL", norm_stmt(st)))
+                continue
             if fn in KILL_CALLS:
                 if which == "partial_fit":
                     toks.append(("KILL-IN-PARTIAL", norm_stmt(st)))
@@ -307,10 +317,16 @@ def check_first_call(ctx):
     ok = False
     for st in fn.node.body:
         if isinstance(st, ast.If) and ast.unparse(st.test) == "self._is_initial_fit":
-            a = " ".join(ast.unparse(x) for x in st.body)
-            b = " ".join(ast.unparse(x) for x in st.orelse)
-            ok = "self._imp.partial_fit(decisions, rewards, contexts)" in a and \
-                "self.fit(decisions, rewards, contexts)" in b
+            # both branches are handed the same three (validated and converted) arrays
+            def args_of(stmts, callee):
+                for x in stmts:
+                    for c in ast.walk(x):
+                        if isinstance(c, ast.Call) and ast.unparse(c.func) == callee and not c.keywords:
+                            return [ast.unparse(a) for a in c.args]
+                return None
+            a = args_of(st.body, "self._imp.partial_fit")
+            b = args_of(st.orelse, "self.fit")
+            ok = a is not None and a == b and len(a) == 3 and len(st.body) == 1 and len(st.orelse) == 1
     ctx.check(ok, "R6.6", "MAB.partial_fit delegates to fit iff no fit has happened yet", fn.node, fn,
               construct="def MAB.partial_fit")
 
